@@ -3,7 +3,14 @@ from __future__ import annotations
 
 from ..framework import PropertySpec, Rule
 from ..props import register
-from . import opden
+from . import opden, logic
+import importlib
+
+
+def _lazy(mod, fn):
+    def call(db):
+        return getattr(importlib.import_module(f"eqlsa.rules.{mod}"), fn)(db)
+    return call
 
 register(PropertySpec(
     id="C01",
@@ -17,6 +24,20 @@ register(PropertySpec(
              "is emitted iff result or yield_when_false, and _is_false_ == not result at the yield"),
         Rule("OPERAND-VALUES", opden.rule_operand_values, 2,
              "each operand value handed to the operation is that operand's own entry of its binding"),
+        Rule("LOGIC-TRUTH", logic.rule_logic_truth, 12,
+             "abstract interpretation of AND._evaluate__ and ElseIf._evaluate__ for every (left false, right false, "
+             "yield_when_false): the _is_false_ flag carried by each emitted row is the truth table of the connective, "
+             "false rows only when requested, and ElseIf asks its left side for false rows"),
+        Rule("BIND-THREAD", _lazy("binding", "rule_bind_thread"), 30,
+             "(shared with C02) operands are evaluated under the binding already established - a condition that "
+             "mentions the variable twice must see the same object on both sides"),
+        Rule("BIND-KEEP", _lazy("binding", "rule_bind_keep"), 12,
+             "(shared with C02) rows keep everything their operands bound"),
+        Rule("VALUE-TRUTH", _lazy("values", "rule_value_truth"), 10,
+             "(shared with C19) operands are evaluated as values: objects whose attribute is 0, '', [] or None are "
+             "compared, not dropped"),
+        Rule("CACHE-FLAG-CONSISTENT", _lazy("cacheidx", "rule_cache_flag_consistent"), 5,
+             "(shared with C05) a cached row is replayed with its own truth flag"),
     ],
     explanation="Decides the clause 'the condition vocabulary denotes the ordinary Python operator': the node each "
                 "public comparison/membership entry constructs (arguments mapped to dataclass fields through the MRO "
@@ -44,6 +65,9 @@ register(PropertySpec(
         Rule("NEG-DEMORGAN", negation.rule_neg_demorgan, 4,
              "Not(AND) builds an or-family node and Not(OR) an AND over Not(left), Not(right); Entity/SetOf are rebuilt "
              "over Not(child) with the same selected variables; arm order does not shadow"),
+        Rule("LOGIC-TRUTH", logic.rule_logic_truth, 12,
+             "the connectives negation rewrites into (AND, ElseIf) carry the truth table of the connective in the "
+             "_is_false_ flag of each emitted row, for every (left false, right false, yield_when_false)"),
         Rule("NEG-TRUTH", negation.rule_neg_truth, 16,
              "for every (invert, value truthiness, yield_when_false) the mapped-value and predicate-output sites set "
              "_is_false_ = (truthy == invert) and emit iff yield_when_false or not _is_false_"),
@@ -250,6 +274,9 @@ register(PropertySpec(
         Rule("CLEAR-COMPLETE", cacheidx.rule_clear_complete, 4,
              "writer/clearer agreement computed from field effects: every field IndexedCache.insert stores into is "
              "emptied by clear(); SeenSet and HashedIterable clear everything their mutators write"),
+        Rule("INSERT-RETRIEVABLE", cacheidx.rule_insert_retrievable, 2,
+             "abstract interpretation of insert(index=True) for an empty and a non-empty assignment: the output is stored "
+             "in the index, where retrieve() looks, never only in the flat store"),
         Rule("RESULT-NO-ALIAS", cacheidx.rule_result_no_alias, 2,
              "in retrieve() a binding extended per cache branch is a fresh copy per branch, and the accumulator starts "
              "from a copy of the lookup"),
@@ -270,6 +297,11 @@ register(PropertySpec(
         Rule("INTERNAL-ABANDON", history.rule_internal_abandon, 1,
              "engine code that leaves a loop over an evaluation stream early invalidates the result caches of the "
              "abandoned producer (otherwise results differ between caching enabled and disabled)"),
+        Rule("CACHE-FLAG-CONSISTENT", cacheidx.rule_cache_flag_consistent, 5,
+             "the truth flag stored with a cached row is the flag the row is emitted with (no re-assignment of "
+             "_is_false_ between the cache write and the yield)"),
+        Rule("INSERT-RETRIEVABLE", cacheidx.rule_insert_retrievable, 2,
+             "(shared with C20) what the operators store is stored where cache hits read"),
         Rule("CACHE-SWITCH", cacheidx.rule_cache_switch, 6,
              "every result-cache read in an evaluation generator is reachable only when is_caching_enabled() holds "
              "(truth table of its guards), given that writes are suppressed when caching is disabled"),
@@ -323,6 +355,13 @@ register(PropertySpec(
              "(EMPTY / SEED / SUBSET-by-membership-in-current / OTHER) and a {first, later} iteration counter: reset at "
              "entry, first value seeds, later values intersect, nothing skipped, empty value empties, early exit only "
              "when empty, the accumulated set is what is yielded"),
+        Rule("FORALL-KEY", forall.rule_forall_key, 1,
+             "the duplicate-suppression key ForAll requires from its condition contains the universal variable"),
+        Rule("FORALL-NONLITERAL", forall.rule_forall_nonliteral, 1,
+             "the key the rows of different universal values are compared on excludes literal pseudo-variables "
+             "(sibling cross-check of the key-variable computations)"),
+        Rule("FORALL-TOTAL-ROWS", forall.rule_forall_total_rows, 1,
+             "rows are completed over the non-universal variables they leave unbound before they are intersected"),
         Rule("FORALL-PER-VALUE", forall.rule_forall_per_value, 2,
              "the condition is evaluated inside the loop over universal values under sources extended with the value; "
              "false condition rows are skipped before accumulation"),
